@@ -53,6 +53,10 @@ type C10Case struct {
 	ChunkSeeds  []uint64  `json:"chunk_seeds"` // one delivery of the same body per seed (0 = whole body at once, 1 = byte by byte)
 	// concurrent phase: Par requests (the same lines, each document marked with its request number)
 	// sent at once to one handler/ingestor, optionally after a request whose store call failed
+	// sequential phase on one long-lived ingestor (as in production): the clock advances by GapMs[i]
+	// before delivery i, so pooled per-request state meets requests of different times
+	SharedIngestor bool    `json:"shared_ingestor,omitempty"`
+	GapMs          []int64 `json:"gap_ms,omitempty"`
 	Par          int     `json:"par,omitempty"`
 	ParFailFirst bool    `json:"par_fail_first,omitempty"`
 	PSync        float64 `json:"p_sync,omitempty"`
@@ -346,13 +350,33 @@ func RunC10(t *testing.T, c *C10Case) *RunResult {
 			panic(err)
 		}
 		var first *c10Outcome
-		for di, cs := range c.ChunkSeeds {
-			client := &captureClient{fail: c.StoreFails}
+		newIngestor := func(client *captureClient) (*bulk.Ingestor, http.Handler) {
 			ing := bulk.NewIngestor(bulk.IngestorConfig{
 				MaxInflightBulks: 4, AllowedTimeDrift: time.Duration(c.DriftMs) * time.Millisecond, FutureAllowedTimeDrift: time.Duration(c.FutureMs) * time.Millisecond,
 				MappingProvider: mp, MaxTokenSize: 72, DocsZSTDCompressLevel: 1, MetasZSTDCompressLevel: 1, MaxDocumentSize: c.MaxDocSize,
 			}, client)
-			h := proxyapi.NewBulkHandler(ing, c.MaxDocSize)
+			return ing, proxyapi.NewBulkHandler(ing, c.MaxDocSize)
+		}
+		sharedClient := &captureClient{fail: c.StoreFails}
+		var sharedIng *bulk.Ingestor
+		var sharedH http.Handler
+		if c.SharedIngestor {
+			sharedIng, sharedH = newIngestor(sharedClient)
+			defer sharedIng.Stop()
+		}
+		for di, cs := range c.ChunkSeeds {
+			client := &captureClient{fail: c.StoreFails}
+			var ing *bulk.Ingestor
+			var h http.Handler
+			if c.SharedIngestor {
+				if di < len(c.GapMs) {
+					s.SleepSim(time.Duration(c.GapMs[di]) * time.Millisecond)
+				}
+				client, ing, h = sharedClient, sharedIng, sharedH
+				client.docs, client.calls, client.err = nil, 0, ""
+			} else {
+				ing, h = newIngestor(client)
+			}
 			now := time.Now()
 			body := c.body(now)
 			wire := body
@@ -376,7 +400,9 @@ func RunC10(t *testing.T, c *C10Case) *RunResult {
 			}
 			rec := httptest.NewRecorder()
 			h.ServeHTTP(rec, req)
-			ing.Stop()
+			if !c.SharedIngestor {
+				ing.Stop()
+			}
 			out := &c10Outcome{status: rec.Code, stored: client.docs, calls: client.calls}
 			if rec.Code == 200 {
 				var resp struct {
@@ -438,7 +464,7 @@ func RunC10(t *testing.T, c *C10Case) *RunResult {
 			} else if first.status != out.status || first.items != out.items || len(first.stored) != len(out.stored) {
 				violate("chunking_dependent", "delivery 0 -> status %d, %d items, %d stored; delivery %d of the same body -> status %d, %d items, %d stored", first.status, first.items, len(first.stored), di, out.status, out.items, len(out.stored))
 				return
-			} else {
+			} else if !c.SharedIngestor { // (with clock gaps the time strings inside the bodies differ by construction)
 				for i := range out.stored {
 					if out.stored[i].body != first.stored[i].body {
 						violate("chunking_dependent", "document %d differs between deliveries of the same body: %q vs %q", i, clipS(first.stored[i].body), clipS(out.stored[i].body))
@@ -675,6 +701,12 @@ func GenC10(seed uint64, thorough bool, maxDoc int) *C10Case {
 		c.ErrorAt = r.Range(1, 300)
 	}
 	c.ChunkSeeds = []uint64{0, 1, 2 + r.Uint64()%1000, 2 + r.Uint64()%1000}
+	if r.Bool(0.4) {
+		c.SharedIngestor = true
+		for range c.ChunkSeeds {
+			c.GapMs = append(c.GapMs, []int64{0, 1, 1500, 61000, 3600000, 2 * c.DriftMs}[r.Intn(6)])
+		}
+	}
 	if r.Bool(0.3) {
 		c.Par = r.Range(2, 4)
 		c.ParFailFirst = r.Bool(0.5)
